@@ -2,20 +2,14 @@
 bytes at an address (independent of pycomm3; arithmetic only)."""
 from vlib.ref import codec as R
 from vlib.ref.logix import ATOMIC_SIZE, ATOMIC_NAME, Template
-from vlib.sym import same_float
+from vlib.sym import same_float, sym_and
 
 SIGNED = {0xC2, 0xC3, 0xC4, 0xC5}
 
 
 def band(a, b):
     """conjunction that does not fork on symbolic operands"""
-    if a is False or b is False:
-        return False
-    if a is True:
-        return b
-    if b is True:
-        return a
-    return a & b
+    return sym_and(a, b)
 
 
 def hidden(name):
@@ -53,7 +47,7 @@ def same_value(typ, val, mem, off, bit=None):
             for i in range(32):
                 ok = band(ok, val[i] == ((word // (1 << i)) % 2 == 1))
             return ok
-        return val == R.from_le(mem[off:off + n], typ in SIGNED)
+        return R.eq_le(mem[off:off + n], typ in SIGNED, val)
     if is_string_template(typ):
         ln = R.from_le(mem[off:off + 4], True)
         cap = typ.size - 4
